@@ -462,12 +462,30 @@ def main(ctx: Ctx) -> int:
     descs = cases_from_tlc(ctx, 60 if ctx.quick else 700)
     cov["tlc_chosen_networks"] = len(descs)
     descs += random_cases(rng, 50 if ctx.quick else 600)
+    # bundled networks (thorough): reactions and species as the real readers decoded them (decoding itself is C07's subject)
+    prebuilt = {}
+    if not ctx.quick:
+        from naunet.network import Network
+        import naunet.network as nn
+        import naunet.thermalprocess as tp
+        nn.get_allowed_heating, nn.get_allowed_cooling = tp.get_allowed_heating, tp.get_allowed_cooling
+        for label, kw in bundled_cases():
+            try:
+                bnet = Network(**kw)
+            except Exception as e:   # noqa
+                ctx.notes.append(f"bundled network {label} could not be read: {type(e).__name__}")
+                continue
+            desc = {"reactions": [([x.name for x in rr.reactants], [x.name for x in rr.products]) for rr in bnet.reaction_list], "required": [],
+                    "origin": f"bundled {label}"}
+            prebuilt[len(descs)] = bnet
+            descs.append(desc)
+        cov["bundled_networks"] = len(prebuilt)
     traces, meta = [], {}
     tid = 0
     malformed = 0
     for ci, desc in enumerate(descs):
         try:
-            net = build_network(desc)
+            net = prebuilt.get(ci) or build_network(desc)
             obs = observe(ctx, net, desc, ci, with_pattern=(ci % 3 == 0))
         except Exception as e:   # noqa
             ctx.violation(f"{pid}|Render|{type(e).__name__}", f"rendering raised {type(e).__name__}: {e} for {desc.get('origin')} network "
@@ -509,9 +527,6 @@ def main(ctx: Ctx) -> int:
         if pid == "C03" and len({tuple(v[0]) for v in cellsets.values()}) > 1:
             ctx.violation("C03|BackendsAgree|cells", f"back-ends assign different Jacobian cells: { {k: len(v[0]) for k, v in cellsets.items()} }",
                           {"desc": {k: v for k, v in desc.items() if k != 'N'}})
-    # bundled networks (thorough): slots and reactions from the real objects, compositions not asserted
-    if not ctx.quick:
-        pass
     v = validate_traces(ctx, "Trace_OdeGen.tla", "Trace_OdeGen.cfg", traces, "ode", chunk=600, timeout=3000)
     cov["traces_validated_against_impl"] = len(traces)
     cov["traces_accepted"] = v["accepted"]
